@@ -16,6 +16,9 @@ import multiprocessing as mp
 warnings.filterwarnings("ignore")
 VERIF = os.path.dirname(os.path.dirname(os.path.abspath(__file__)))
 sys.path.insert(0, VERIF)
+# where evidence/ and replays/ are written: /verif itself, unless a scratch run (a seeded change applied to a scratch
+# worktree named by VERIF_REPO) asks for another place so that the committed evidence is not touched
+OUT = os.environ.get("VERIF_OUT", VERIF)
 
 from pyvc import harness  # noqa: E402
 from pyvc.harness import REGISTRY, run_contract, native_eval, unjson, jsonable  # noqa: E402
@@ -133,12 +136,15 @@ def main(argv=None):
     names_now = {}
     for r in results:
         names_now[r["job"]] = sorted({o["name"] for o in r["obligations"]})
+    bkey = prop if a.tier != "thorough" else prop + "@thorough"      # one list of obligation names per tier
     if a.freeze:
-        baseline[prop] = names_now
-        json.dump(baseline, open(base_path, "w"), indent=1, sort_keys=True)
+        baseline[bkey] = names_now
+        json.dump(baseline, open(base_path + ".tmp", "w"), indent=1, sort_keys=True)
+        os.replace(base_path + ".tmp", base_path)
         print("baseline frozen for", prop, sum(len(v) for v in names_now.values()), "obligation names")
 
     violations = []     # (job, obligation, replay-dict, has_input)
+    undecided = []      # (job, obligation, solver reason): `unknown` on an obligation that is not in the frozen list of discharged ones
     crashes = []
     for r in results:
         if r.get("crashed"):
@@ -146,9 +152,15 @@ def main(argv=None):
         cls = byname[r["job"]] if r["job"] in byname else None
         excl = by_job_excl.get(r["job"], [])
         bad = {}
+        known_names = set(baseline.get(bkey, {}).get(r["job"], []))
         for o in r["obligations"]:
-            if o["status"] != "unsat":
-                bad.setdefault(o["name"], []).append(o)
+            if o["status"] == "unsat":
+                continue
+            if o["status"] == "unknown" and o["name"] not in known_names:
+                # never proved on the unchanged tree either (not in the frozen list for this tier): undecided, not a violation
+                undecided.append((r["job"], o["name"], o.get("reason", "")))
+                continue
+            bad.setdefault(o["name"], []).append(o)
         for name, obs in bad.items():
             rep = dict(property=prop, job=r["job"], target=r["target"], obligation=name,
                        solver_status=[o["status"] for o in obs], solver_reason=[o.get("reason", "") for o in obs],
@@ -177,8 +189,8 @@ def main(argv=None):
                        inputs=nf["inputs"], observed=nf["detail"], source="run-time contract check on the real function")
             violations.append((r["job"], r["job"] + ":runtime-contract", rep, True))
         # obligations that existed on the unchanged tree and are no longer generated
-        if not a.freeze and not a.only and not r.get("crashed"):
-            for nm in baseline.get(prop, {}).get(r["job"], []):
+        if not a.freeze and not a.only and not r.get("crashed") and not r.get("truncated"):      # a budget-truncated bounded job enumerates fewer cases: no diff
+            for nm in baseline.get(bkey, {}).get(r["job"], []):
                 if nm not in names_now.get(r["job"], []):
                     rep = dict(property=prop, job=r["job"], target=r["target"], obligation=nm,
                                solver_status=["not-generated"],
@@ -188,7 +200,7 @@ def main(argv=None):
     for line in known_lines:
         print(line)
     code = 0
-    os.makedirs(os.path.join(VERIF, "replays", prop), exist_ok=True)
+    os.makedirs(os.path.join(OUT, "replays", prop), exist_ok=True)
     if crashes:
         for j, c in crashes:
             print("CHECKER-ERROR: job %s: %s" % (j, c.strip().splitlines()[-1] if c.strip() else c))
@@ -205,7 +217,7 @@ def main(argv=None):
             continue
         seen[key] = [name]
         fn = "%s.%s.json" % (job, name.replace(":", "_").replace("@", "_").replace("/", "_"))
-        path = os.path.join(VERIF, "replays", prop, fn)
+        path = os.path.join(OUT, "replays", prop, fn)
         rep["replay_cmd"] = "./check %s --replay %s" % (prop, path)
         json.dump(rep, open(path, "w"), indent=1, default=str)
         print("VIOLATION property=%s replay=%s%s" % (prop, path, "" if has_input else " no-failing-input-found"))
@@ -213,6 +225,10 @@ def main(argv=None):
         print("   obligation %s (%s)%s" % (name, ",".join("%s x%d" % (x, sts.count(x)) for x in sorted(set(sts))),
                                           ("  input: " + json.dumps(rep.get("inputs"))[:300]) if has_input else ""))
         code = 1
+    for job, name, reason in sorted(set(undecided))[:20]:
+        print("UNDECIDED: property=%s obligation %s (%s)" % (prop, name, reason or "unknown"))
+    if undecided and code == 0:
+        code = 2
     write_evidence(prop, a.tier, seed, results, violations, known_lines, time.time() - t0, crashes)
     tot = sum(len(r["obligations"]) for r in results)
     dis = sum(1 for r in results for o in r["obligations"] if o["status"] == "unsat")
@@ -312,13 +328,13 @@ def write_evidence(prop, tier, seed, results, violations, known_lines, wall, cra
     ev = dict(property_id=prop, tier=tier if tier in ("quick", "thorough") else "quick", seed=seed, level=level, coverage=cov,
               assumptions=assumptions, wall_s=round(wall, 2), violations=len({(v[0], v[1]) for v in violations}),
               checker_errors=[c[0] for c in crashes])
-    os.makedirs(os.path.join(VERIF, "evidence"), exist_ok=True)
-    json.dump(ev, open(os.path.join(VERIF, "evidence", prop + ".json"), "w"), indent=1, default=str)
+    os.makedirs(os.path.join(OUT, "evidence"), exist_ok=True)
+    json.dump(ev, open(os.path.join(OUT, "evidence", prop + ".json"), "w"), indent=1, default=str)
     # rewritten sources for inspection
-    os.makedirs(os.path.join(VERIF, "evidence", "rewritten"), exist_ok=True)
+    os.makedirs(os.path.join(OUT, "evidence", "rewritten"), exist_ok=True)
     for r in results:
         if r.get("rewritten_source"):
-            open(os.path.join(VERIF, "evidence", "rewritten", "%s.%s.py" % (prop, r["job"])), "w").write(
+            open(os.path.join(OUT, "evidence", "rewritten", "%s.%s.py" % (prop, r["job"])), "w").write(
                 "# %s -- rewritten by pyvc/amode.py from the current /repo source; loops cut: %s\n" % (r["target"], r.get("loops_cut")) + r["rewritten_source"] + "\n")
 
 
